@@ -71,6 +71,10 @@ fn gen_r1cs_curve<G: AffineRepr>(curve: &str, ci: u64, seed: u64, tier: &str, st
                 sink.shards[sh].push_str(&out.coq);
                 sink.shards[sh].push_str(&format!("Eval vm_compute in run_r1cs {}.\n", c.id));
                 sink.order.push((sh, c.id.clone()));
+            } else if !out.coq.is_empty() {
+                // size-only evaluation (Model/ShapeProver.v)
+                sink.shards[sh].push_str(&out.coq);
+                sink.order.push((sh, c.id.clone()));
             }
             sink.impl_obs.push_str(&out.obs);
             let cap_basis = c.cap_p.max(c.cap_v).max(1);
@@ -250,7 +254,7 @@ fn cmd_gen(args: &[String]) {
         other => panic!("unknown component {}", other),
     }
     let header = match comp.as_str() {
-        "r1cs" => "Require Import BP.Run.R1cs.\nSet Printing Width 2000000000.\nSet Printing Depth 2000000000.\n",
+        "r1cs" => "Require Import BP.Run.R1cs BP.Run.Shape.\nSet Printing Width 2000000000.\nSet Printing Depth 2000000000.\n",
         "batch" => "Require Import BP.Run.R1cs.\nSet Printing Width 2000000000.\nSet Printing Depth 2000000000.\n",
         "ipp" => "Require Import BP.Run.Ipp.\nSet Printing Width 2000000000.\nSet Printing Depth 2000000000.\n",
         "ped" => "Require Import BP.Run.Ped.\nSet Printing Width 2000000000.\nSet Printing Depth 2000000000.\n",
